@@ -801,10 +801,13 @@ func bxvFilterCases(fails *[]bxvFailure) int {
 	n := 0
 	type item struct{ X int }
 	type items []item
+	type ifaces []interface{}
 	backing := []item{{1}, {2}, {1}}
 	inputs := []interface{}{
 		[]item{{1}, {2}, {1}}, items{{1}, {2}}, [3]item{{1}, {2}, {1}}, []item{}, map[string]item{"a": {1}, "b": {2}}, map[int]item{1: {1}}, map[string]item{},
 		[]interface{}{item{1}, 5, item{1}}, []*item{{1}, nil}, nil, 5, "s", item{1}, &[]item{{1}}, []map[string]int{{"X": 1}, {"Y": 1}},
+		[]interface{}{map[string]interface{}{"X": 1}, map[string]interface{}{"X": 2}, map[string]int{"X": 1}}, ifaces{map[string]interface{}{"X": 1}, &item{1}}, []interface{}{&item{1}, item{2}, nil},
+		[2]interface{}{map[string]int{"X": 1}, map[string]int{"X": 3}}, map[string]interface{}{"a": map[string]int{"X": 1}, "b": item{2}}, []fmt.Stringer{nil}, []**item{},
 		[0]item{}, []item(nil), items(nil), backing[:0], backing[:1], map[string]item(nil), map[int]item{}, [1]item{{1}}, []interface{}{}, map[string]interface{}{},
 	}
 	for _, expr := range []string{"X == 1", "X != 1", "not X == 1", "Zz == 1"} {
@@ -939,13 +942,27 @@ func bxvConcurrent(fails *[]bxvFailure) int {
 	}
 	d := map[string]interface{}{"S": "abc", "L": []string{"a", "b"}, "A": map[string]interface{}{"B": map[string]interface{}{"C": big, "M": map[string]int{"p": 1, "q": 2, "r": 3}}}}
 	n := 0
+	// every expression under several option sets (the option list an evaluator
+	// keeps is shared by all its calls too), and different data per goroutine
+	optSets := [][]Option{nil, {WithUnknownValue("zz")}, {WithTagName("json"), WithUnknownValue(1), WithHookFn(func(v reflect.Value) reflect.Value { return v })}}
+	for _, e0 := range append(append([]string(nil), exprs...), "any L as x { x == a and Missing == zz }", "all A.B.C as i, v { v != bad or Missing.x == 1 }") {
+		for oi := 1; oi < len(optSets); oi++ {
+			exprs = append(exprs, fmt.Sprintf("\x00%d\x00%s", oi, e0))
+		}
+	}
 	for _, e := range exprs {
-		ev, err := CreateEvaluator(e)
+		var opts []Option
+		if strings.HasPrefix(e, "\x00") {
+			parts := strings.SplitN(e[1:], "\x00", 2)
+			oi, _ := strconv.Atoi(parts[0])
+			opts, e = optSets[oi], parts[1]
+		}
+		ev, err := CreateEvaluator(e, opts...)
 		if err != nil {
 			continue
 		}
 		want, werr := func() (bool, error) {
-			ev2, _ := CreateEvaluator(e)
+			ev2, _ := CreateEvaluator(e, opts...)
 			return ev2.Evaluate(d)
 		}()
 		var wg sync.WaitGroup
